@@ -50,7 +50,7 @@ ASSUMPTIONS = [
 ]
 BOUNDS = {
     "quick": {"history_depth": "fixpoint", "faults": "1 fault at every call x every mode", "constructors": "2 threads: preemption bound 3; 3 threads: bound 1"},
-    "thorough": {"history_depth": "fixpoint", "faults": "1 fault at every call x every mode; 2 faults (die after a failed call)", "constructors": "2 threads: all interleavings; 3 threads: bound 2"},
+    "thorough": {"history_depth": "fixpoint", "faults": "1 fault at every call x every mode; 2 faults (die after a failed call)", "constructors": "2 threads: preemption bound 5; 3 threads: bound 2"},
 }
 READY = True
 PIN_CPUS = True
@@ -615,7 +615,7 @@ def conc_specs(tier):
     q = tier == "quick"
     out = []
     for init in ("no-module", "stale-module", "corrupt-module", "missing-dir"):
-        out.append((init, 2, 3 if q else None))
+        out.append((init, 2, 3 if q else 5))
         out.append((init, 3, 1 if q else 2))
     return out
 
